@@ -1,5 +1,7 @@
 import NeoFS.Lemmas.ContainerFinal
 import NeoFS.Lemmas.ContainerLayout
+import NeoFS.Generated.Consts
+import NeoFS.Generated.Footprint
 set_option linter.unusedSimpArgs false
 set_option linter.unusedVariables false
 /-! # C04 — Container registry matches the live set; deletion is complete and final
@@ -437,5 +439,73 @@ example : faultOf (invoke env0 (run (init roots0) demo) (.put cid1 blob1 [1] pub
 example : ((abs (run (init roots0) demo)).live cid2).map (·.alias) = some (some (aaa ++ 46 :: Generated.container_nnsDefaultTLD_bytes)) := by decide
 
 end demo
+
+/-! ## Frame of the model, regenerated: which storage keys the registry methods can write
+
+Checked by kernel evaluation over `NeoFS.Generated.Footprint.table` (grouped by contract: `contracts`), the MAY-WRITE footprint recomputed from the Go sources
+on every run (`extract footprint`; vocabulary and the meaning of the checkers in `Model/Footprint.lean`). Families are named
+through the regenerated constants. -/
+section Footprint
+open NeoFS.Footprint NeoFS.Generated.Footprint
+
+def fpContainers : Fam := startingWith NeoFS.Generated.container_containerKeyPrefix_bytes
+def fpOwnerIndex : Fam := startingWith NeoFS.Generated.container_ownerKeyPrefix_bytes
+def fpMetaFlags : Fam := startingWith NeoFS.Generated.container_containersWithMetaPrefix_bytes
+def fpEACL : Fam := startingWith NeoFS.Generated.container_eACLPrefix_bytes
+def fpAlias : Fam := startingWith NeoFS.Generated.container_nnsHasAliasKey_bytes
+/-- the placement roster `n ‖ cid ‖ vector ‖ key` (67 bytes) shares its first byte with the alias flags `nnsHasAlias ‖ cid` (43 bytes):
+at the level of leading constants the roster family contains the alias family, the key lengths keep them apart; rows of exactly
+this family are left out where the alias family is concerned -/
+def fpRoster : Fam := startingWith NeoFS.Generated.container_nodesPrefix_bytes
+def fpTombstones : Fam := startingWith NeoFS.Generated.container_deletedKeyPrefix_bytes
+
+/-- "Deleting a container removes every trace of it": whatever storage family `put` (incl. the `putMeta` overload), `putNamed` or
+`setEACL` can write, `delete` can delete — every put row of these methods lies inside the family of a delete row of `delete`;
+and `delete` asks NNS to drop the alias record. -/
+theorem delete_covers_everything_put_and_setEACL_write :
+    putsCoveredBy contracts "container" ["put", "putNamed", "setEACL"] "delete" = true ∧
+    named contracts "container" "delete" "call" "deleteRecords" = true := by decide +kernel
+
+/-- The five per-container families named in the property are all among those `delete` deletes. -/
+theorem delete_deletes_blob_owner_index_eacl_alias_meta :
+    deletesAllOf contracts "container" "delete" [fpContainers, fpOwnerIndex, fpEACL, fpAlias, fpMetaFlags] = true := by decide +kernel
+
+/-- "A deleted id can never be registered again": only `delete` writes a tombstone, and nothing ever deletes one (the upgrade
+migration in `_deploy` excepted, which moves keys of unknown shape). -/
+theorem tombstones_written_only_by_delete_and_never_removed :
+    onlyBy contracts "container" "put" fpTombstones ["delete"] = true ∧
+    onlyBy contracts "container" "delete" fpTombstones ["_deploy"] = true ∧
+    does contracts "container" "delete" "put" fpTombstones = true := by decide +kernel
+
+/-- Who can write the registry families at all: blobs and the owner index only `put`/`putNamed` (and the migration), eACL tables
+only `setEACL`, the meta flag only `put` (its `putMeta` overload), the alias only `put`/`putNamed`; only `delete` (and the migration)
+deletes any of them. -/
+theorem registry_families_written_only_by_the_registry_methods :
+    onlyBy contracts "container" "put" fpContainers ["put", "putNamed", "_deploy"] = true ∧
+    onlyBy contracts "container" "put" fpOwnerIndex ["put", "putNamed", "_deploy"] = true ∧
+    onlyBy contracts "container" "put" fpEACL ["setEACL"] = true ∧
+    onlyBy contracts "container" "put" fpMetaFlags ["put"] = true ∧
+    onlyByApartFrom contracts "container" "put" fpAlias (· == fpRoster) ["put", "putNamed"] = true ∧
+    [fpContainers, fpOwnerIndex, fpEACL, fpMetaFlags].all
+      (fun f => onlyBy contracts "container" "delete" f ["delete", "_deploy"]) = true ∧
+    onlyByApartFrom contracts "container" "delete" fpAlias (· == fpRoster) ["delete", "_deploy"] = true := by decide +kernel
+
+/-- "… and nothing else emits them": the three notifications come only from their methods. -/
+theorem success_notifications_only_from_their_methods :
+    namedOnlyBy contracts "container" "notify" "PutSuccess" ["put", "putNamed"] = true ∧
+    namedOnlyBy contracts "container" "notify" "DeleteSuccess" ["delete"] = true ∧
+    namedOnlyBy contracts "container" "notify" "SetEACLSuccess" ["setEACL"] = true := by decide +kernel
+
+-- non-vacuity: the families are written by the methods named; a delete that forgot the eACL family would be refused
+example : does contracts "container" "put" "put" fpContainers = true ∧ does contracts "container" "putNamed" "put" fpOwnerIndex = true ∧
+    does contracts "container" "setEACL" "put" fpEACL = true ∧ does contracts "container" "put" "put" fpMetaFlags = true ∧
+    does contracts "container" "putNamed" "put" fpAlias = true := by decide +kernel
+example : named contracts "container" "put" "notify" "PutSuccess" = true ∧ named contracts "container" "delete" "notify" "DeleteSuccess" = true ∧
+    named contracts "container" "setEACL" "notify" "SetEACLSuccess" = true := by decide +kernel
+example : putsCoveredBy (withoutRows contracts (fun e => e.method == "delete" && e.kind == "delete" && e.bytes == fpEACL.bytes))
+    "container" ["put", "putNamed", "setEACL"] "delete" = false := by decide +kernel
+example : onlyBy (withRow contracts ⟨"container", "setEACL", "delete", "", "", NeoFS.Generated.container_deletedKeyPrefix_bytes, false⟩)
+    "container" "delete" fpTombstones ["_deploy"] = false := by decide +kernel
+end Footprint
 
 end NeoFS.Props.C04
